@@ -7,8 +7,11 @@
    resources, KV and creatables); specification: model/LedgerSpec.v ([state_at] = fold of the
    block deltas over genesis).  [reach c gen ops] is the tracker state after ANY finite sequence
    of operations [ops] (new blocks, committedUpTo calls, the three phases of a commit taken
-   apart, reloads, cache flushes / evictions, lookups) under ANY configuration [c] (lookback,
-   cache on/off, cache sizes); [history_of ops] is the block history that sequence contains.
+   apart, reloads, cache flushes / evictions, lookups, lookups by readers that stall between
+   their DB read and their cache write, the landing of such a write at ANY later time) under
+   ANY configuration [c] (lookback, cache on/off, cache sizes) with the repaired flush of the
+   base caches ([cf_fix c = true]: flushPendingWritesSince; for the original flushPendingWrites
+   the property is refuted below); [history_of ops] is the block history the sequence contains.
    The only hypothesis is [wf_hist]: what the block evaluator guarantees about its deltas
    (distinct keys per round; a KV record's OldData is the previous value; a resource half is
    "nil and not deleted" only if it was absent) -- both special clauses are shown necessary. *)
@@ -26,7 +29,7 @@ Open Scope nat_scope.
    are only on absent rows, between the SQL transaction and postCommit the DB is exactly [off]
    rounds ahead and memory unchanged. *)
 Theorem C08_tracker_invariant : forall c gen ops,
-  wf_hist (genesis_world gen) (history_of ops) ->
+  cf_fix c = true -> wf_hist (genesis_world gen) (history_of ops) ->
   Inv (genesis_world gen) (reach c gen ops) /\ Full (reach c gen ops) /\
   t_blocks (reach c gen ops) = history_of ops.
 Proof. exact reach_inv. Qed.
@@ -36,7 +39,7 @@ Print Assumptions C08_tracker_invariant.
    its SQL transaction and its postCommit), is the projection of the state obtained by applying
    exactly the blocks up to the requested round to genesis. *)
 Theorem C08_lookup_correct : forall c gen ops q,
-  wf_hist (genesis_world gen) (history_of ops) -> is_query q ->
+  cf_fix c = true -> wf_hist (genesis_world gen) (history_of ops) -> is_query q ->
   out_is_ok (snd (step (reach c gen ops) q)) ->
   snd (step (reach c gen ops) q) = spec_out (genesis_world gen) (history_of ops) q.
 Proof. exact lookup_correct_lemma. Qed.
@@ -45,7 +48,7 @@ Print Assumptions C08_lookup_correct.
 (* Every round from the DB round to the latest block is served: a lookup there returns a value,
    except while the DB is ahead of memory, where it returns a value or waits (never an error). *)
 Theorem C08_lookup_total : forall c gen ops q,
-  wf_hist (genesis_world gen) (history_of ops) -> is_query q ->
+  cf_fix c = true -> wf_hist (genesis_world gen) (history_of ops) -> is_query q ->
   servable (reach c gen ops) (q_rnd q) ->
   match t_phase (reach c gen ops) with
   | PCommitted _ => out_is_ok (snd (step (reach c gen ops) q)) \/ out_is_retry (snd (step (reach c gen ops) q))
@@ -57,6 +60,7 @@ Print Assumptions C08_lookup_total.
 (* The property's sentence: two runs over the same blocks -- whatever their flush schedules,
    cache configurations, evictions and restarts -- give the same answer to the same question. *)
 Theorem C08_schedule_independent : forall c1 c2 gen ops1 ops2 q,
+  cf_fix c1 = true -> cf_fix c2 = true ->
   history_of ops1 = history_of ops2 ->
   wf_hist (genesis_world gen) (history_of ops1) -> is_query q ->
   out_is_ok (snd (step (reach c1 gen ops1) q)) -> out_is_ok (snd (step (reach c2 gen ops2) q)) ->
@@ -67,14 +71,14 @@ Print Assumptions C08_schedule_independent.
 (* None of the consistency panics of postCommit / produceCommittingTask / slice indexing is
    reachable, as long as committedUpTo is only called for rounds that exist. *)
 Theorem C08_no_panic : forall c gen ops,
-  wf_hist (genesis_world gen) (history_of ops) -> enabled_run (init c gen) ops ->
+  cf_fix c = true -> wf_hist (genesis_world gen) (history_of ops) -> enabled_run (init c gen) ops ->
   Forall (fun r => r <> RPanic) (snd (run (init c gen) ops)).
 Proof. exact no_panic_reach. Qed.
 Print Assumptions C08_no_panic.
 
 (* The DB round never lags behind memory; a commit in flight covers in-memory rounds only. *)
 Theorem C08_phase_rounds : forall c gen ops,
-  wf_hist (genesis_world gen) (history_of ops) ->
+  cf_fix c = true -> wf_hist (genesis_world gen) (history_of ops) ->
   let s := reach c gen ops in
   match t_phase s with
   | PIdle => t_dbr s = t_dbRound s
@@ -87,12 +91,31 @@ Print Assumptions C08_phase_rounds.
 (* [check]'s oracle is the statement: the term it compares an (ok ...) observation with is the
    printed form of [spec_out], computed from the delta list alone. *)
 Theorem C08_spec_ok_is_statement : forall g h rnd a ci k ct,
+  spec_acct g h rnd a = out_term (spec_out g h (OSAcct rnd a)) /\
   spec_acct g h rnd a = out_term (spec_out g h (OQAcct rnd a)) /\
   spec_res g h rnd a ci = out_term (spec_out g h (OQRes rnd a ci)) /\
   spec_kv g h rnd k = out_term (spec_out g h (OQKv rnd k)) /\
   spec_cre g h rnd ci ct = out_term (spec_out g h (OQCre rnd ci ct)).
 Proof. intros. repeat split. Qed.
 Print Assumptions C08_spec_ok_is_statement.
+
+(* ---------- the original flush of the base caches (flushPendingWrites, [cf_fix c = false]):
+   a cache write that lands late -- after a commit changed the key and the cache turned over --
+   plants a stale entry, and lookups then answer from it.  Replayed on the Go code by the harness
+   (signature late_pending_cache_write).  With flushPendingWritesSince the same schedule gives the
+   value the history dictates (an instance of C08_lookup_correct). ---------- *)
+Theorem C08_late_pending_refuted :
+  exists c gen ops rnd a v,
+    cf_fix c = false /\
+    wf_hist (genesis_world gen) (history_of ops) /\
+    snd (step (reach c gen ops) (OQAcct rnd a)) = RAcct (LOk v) /\
+    v <> ans_acct (state_at (genesis_world gen) (history_of ops) rnd) a.
+Proof. exact late_pending_refuted_lemma. Qed.
+Print Assumptions C08_late_pending_refuted.
+
+Example C08_late_pending_repaired :
+  snd (step (reach (late_cfg true) late_gen late_ops) (OQAcct 2 1%N)) = RAcct (LOk (mkAcct 200%N 0%N 0%N)).
+Proof. exact late_pending_repaired_lemma. Qed.
 
 (* ---------- the hypotheses on the history are necessary (not artefacts of the model):
    both witnesses are replayed on the Go code by the harness ---------- *)
